@@ -293,9 +293,11 @@ def run(c, a):
             for o in obligs:
                 if o["leaf"].startswith("ns"):
                     for val in ("ns-a", "ns-b"):
-                        d = dict(o)
-                        d.update(mode="chain", value=val, id=len(chain) + 1)
-                        chain.append(d)
+                        # also inside a blob that needs a UTF-8 repair first, and between neighbour events with content of their own
+                        for variant in ("",) + (("dirty", "dirtyfirst", "rich") if o["inblob"] and val == "ns-a" else ()):
+                            d = dict(o)
+                            d.update(mode="chain", value=val, variant=variant, id=len(chain) + 1)
+                            chain.append(d)
                 elif o["root"]["service"] == "admin":
                     d = dict(o)
                     d.update(mode="chain", id=len(chain) + 1)
